@@ -287,6 +287,8 @@ static void run_case(fcase *c, long idx) {
             if (dest[0]) { snprintf(obs, sizeof obs, "returned %d but dest[0]=%#x", ret, dest[0]); vio("C04", c, t, idx, dmax, "dest[0]-not-zero", errname(-ret), obs); }
             else for (size_t i = 0; i < dmax; i++) if (dest[i] && (g_noslack ? dest[i] != (uint8_t)(0x61 + i % 26) : 1)) { snprintf(obs, sizeof obs, "returned %d but dest[%zu]=%#x holds formatted output", ret, i, dest[i]); vio("C04", c, t, idx, dmax, g_noslack ? "partial-result-visible" : "not-all-zero-after-failure", errname(-ret), obs); break; }
         } else if (!g_noslack && dl < dmax) {
+            /* a NUL printed through %c is part of the text: the slack starts behind the returned count */
+            if (c->invalid_arg == 2 && (size_t)ret > dl) dl = (size_t)ret < dmax ? (size_t)ret : dmax;
             for (size_t i = dl; i < dmax; i++) if (dest[i]) { snprintf(obs, sizeof obs, "ret %d, text length %zu, dest[%zu]=%#x", ret, dl, i, dest[i]); vio("C08", c, t, idx, dmax, "stale-data-behind-terminator", fitc, obs); break; }
         }
         /* ---- C11 */
